@@ -16,9 +16,9 @@ def short(s, n):
     return s if len(s) <= n else s[:n - 1].rstrip() + "…"
 
 
-def agent_rows():
+def agent_rows(pattern="C*-agent*"):
     rows = []
-    for d in sorted(glob.glob(os.path.join(V, "seeded", "C*-agent*"))):
+    for d in sorted(glob.glob(os.path.join(V, "seeded", pattern))):
         name = os.path.basename(d)
         try:
             meta = json.load(open(os.path.join(d, "meta.json")))
@@ -45,8 +45,12 @@ def agent_rows():
                 if (first.get("exit") or 0) < 0 or first.get("exit") == 2:
                     v = "first run did not complete (harness defect on a broken tree, since fixed), then caught"
             verdicts.append("%s: %s (%s violations, %ss)" % (k.split(":")[0], v, c.get("violations"), int(c.get("wall_s", 0))))
-        rows.append((name, meta.get("property", "?"), short(meta.get("summary", ""), 230), short(meta.get("needs", ""), 200),
-                     "yes" if conf.get("confirmed") else "NO", "; ".join(verdicts) or "not run"))
+        own = meta.get("property", "?")
+        final = any(c.get("caught") for k, c in checks.items())
+        at_first = all(((next((h for h in hist if h["check"] == k), None) or c).get("caught")) for k, c in checks.items() if k.startswith(own)) and final
+        rows.append((name, own, short(meta.get("summary", ""), 230), short(meta.get("needs", ""), 200),
+                     "yes" if conf.get("confirmed") else ("n/a" if meta.get("kind") == "revert-of-fix" else "NO"), "; ".join(verdicts) or "not run",
+                     final, at_first))
     return rows
 
 
@@ -83,11 +87,19 @@ def main():
     out.append("|---|---|---|---|---|---|")
     ar = agent_rows()
     for r in ar:
-        out.append("| " + " | ".join(esc(x) for x in r) + " |")
-    ncaught = sum(1 for r in ar if "caught" in r[5] and "missed (" not in r[5] and ": missed" not in r[5])
+        out.append("| " + " | ".join(esc(x) for x in r[:6]) + " |")
     out.append("")
-    out.append("%d of %d confirmed agent changes are caught by the quick tier of the check of the property they were aimed at.\n" % (ncaught, len(ar)))
-    out.append("### 6.2 Hand-written mutants (`seeded/own/mutants.py`)\n")
+    out.append("%d confirmed agent changes; %d were caught by the quick tier at the first attempt, %d are caught now (after the strengthening listed above).\n"
+               % (len(ar), sum(1 for r in ar if r[7]), sum(1 for r in ar if r[6])))
+    out.append("### 6.2 Reverts of the fix commits\n")
+    out.append("| Seed | Property | Change | Quick check |")
+    out.append("|---|---|---|---|")
+    rr = agent_rows("revert-*")
+    for r in rr:
+        out.append("| " + " | ".join(esc(x) for x in (r[0], r[1], r[2], r[5])) + " |")
+    out.append("")
+    out.append("%d reverts applied; %d are caught by the quick tier (%d at the first attempt).\n" % (len([r for r in rr if r[5] != "not run"]), sum(1 for r in rr if r[6]), sum(1 for r in rr if r[7])))
+    out.append("### 6.3 Hand-written mutants (`seeded/own/mutants.py`)\n")
     out.append("| Mutant | Check | File | Pinned suite | Quick check | Note |")
     out.append("|---|---|---|---|---|---|")
     for r in own_rows():
